@@ -199,11 +199,18 @@ def check_B3(ctx, facts_prod, facts_tu):
                             found.setdefault((rb.name, 'SQL'), []).append((r, 'SQL ' + text.split()[0], rb, t))
         if not found:
             ctx.ok('C17.B3', '%s|reads-pure' % backend, '', 'no persistent write reachable from the %d read methods of %s' % (nreads, pat))
+        emitted = set()
         for (sink, kind), hits in sorted(found.items()):
             reads = sorted({h[0] for h in hits})
             what = sorted({h[1] for h in hits})
             rb, t = hits[0][2], hits[0][3]
-            ctx.bad('C17.B3', '%s|reads-reach-write|%s' % (backend, strip_generics(sink).replace('datacake_', '')), site(rb, t['cs']),
+            # the violation is identified by WHAT a read does to persistent state — creating the keyspace's databases — not by the
+            # name of the function that happens to contain the call (a behaviour-preserving move keeps the violation)
+            ident = 'keyspace-creation' if any('create_database' in w for w in what) else strip_generics(sink).replace('datacake_', '')
+            if ident in emitted:
+                continue
+            emitted.add(ident)
+            ctx.bad('C17.B3', '%s|reads-reach-write|%s' % (backend, ident), site(rb, t['cs']),
                     'read method(s) %s of %s reach %s in %s: a read changes persistent state (what get_keyspace_list returns next)' % (reads, pat, what, last_seg(sink)))
 
 
